@@ -141,6 +141,9 @@ class Program:
 
     # ------------------------------------------------------------------ loading
     def _load(self):
+        from .normalise import normalise, package_facts
+
+        parsed = []
         for fn in sorted(os.listdir(self.pkgdir)):
             if not fn.endswith(".py"):
                 continue
@@ -151,9 +154,10 @@ class Program:
                 tree = ast.parse(src, filename=path)
             except SyntaxError as exc:
                 raise AnalysisError(f"cannot parse {path}: {exc}") from exc
-            from .normalise import normalise
-
-            self.normalised[fn] = normalise(tree, keep=_anchor_names())
+            parsed.append((fn, path, src, tree))
+        facts = package_facts([t for _, _, _, t in parsed])  # package-wide signatures / never re-bound attributes (A-NORM (8), (9))
+        for fn, path, src, tree in parsed:
+            self.normalised[fn] = normalise(tree, keep=_anchor_names(), facts=facts)
             name = fn[:-3]
             mod = Module(
                 name=name,
